@@ -37,7 +37,7 @@ Conventions of the translation (the runtime, the proofs and the hand model rely 
     (fields of the context `cx`), so are the number format of np.savetxt (`fmt`, the default "%.18e": a `fmt=`
     keyword is not accepted) and the parsing of np.loadtxt (`parse`); the one file of save_to_csv / load_from_csv is a
     value (`csvfile`: delimiter + one row of tokens); lambdas are accepted only as `lambda a, b: a <op> b` on grids.
-Fail-closed: every statement / expression shape that is not listed in `Tr.stmt` / `Tr.ex` raises TranslateError with
+Fail-closed: every statement / expression shape that is not accepted by `Tr.blk` (statements) / `Tr.ex_` (expressions) raises TranslateError with
 the source location.  Nothing is pinned textually.
 """
 import ast
@@ -1074,10 +1074,7 @@ class Tr:
             xp = "'((" + ", ".join(vname(x) for x in targets) + ") : " + self.cty(tl[1]) + ")"
         else:
             raise self.err("loop target not accepted", s)
-        asg = assigned(s.body)
-        for x in asg:
-            if x not in env and x not in targets:
-                pass                                   # a local of the body: dies with the iteration
+        asg = assigned(s.body)           # a name first bound inside the body is a local of one iteration
         carried = [x for x in asg if x in env and x not in targets and not (x == "self" and not self.m.self_w)]
         if any(x in asg for x in targets):
             raise self.err("the loop variable is re-bound in the body", s)
